@@ -17,11 +17,41 @@
 //                                             on the heap, or a std::vector<int64_t> of n elements (capacity n)
 //   vset <s|n> ; <offset...> ; <v0>           the TEMPLATE DataSet::setData(const T &value, offset), value(s) v0, v0+1, ...
 //   aget / aset                               the same calls on the DataArray itself (control)
+// every template route of DataSet.hpp through the view, for every typed container (Hydra data_traits):
+//   route = sc (int64_t) | c1 (int64_t[N], N in {3,5}) | c2 (int64_t[2][3]) | vec | val (std::valarray) | ma (boost::multi_array,
+//           rank = number of extents, 1..3) | nd (nix::NDArray);  <ext0...> = the container's extents before the call
+//   tgetall <route> <ext0...>                          getData(value)           -> "<extents after> | [ values ]"
+//   tget3 <route> <ext0...> ; <cnt...> ; <off...>      getData(value, count, offset)
+//   tgetat <route> <ext...> ; <off...>                 getData(value, offset)
+//   tsetall <route> <ext...> ; <v0>                    setData(value)           (values v0, v0+1, ...)
+//   tset <route> <ext...> ; <off...> ; <v0>            setData(value, offset)
+//   vsetextent <shape...>                              DataView::dataExtent(const NDSize &)
+//   vtype                                              DataView::dataType()
+// further routes of util/dataAccess:
+//   slice3 <starts...> ; <ends...>                     util::dataSlice(array, start, end)   (units and mode defaulted)
+//   posin <position...>                                util::positionInData
+//   dimunit <j>                                        util::getDimensionUnit(array.getDimension(j + 1))
+//   p2i <j> <d:position> <unit> <rule>                 util::positionToIndex(position, unit, PositionMatch, const Dimension &)
+//   p2iv <j> <incl|excl> ; <starts...> ; <ends...> ; <units...>   util::positionToIndex(starts, ends, units, RangeMatch, const Dimension &)
 // Doubles as d:<16 hex>; integers decimal or 0x-hex; units as plain tokens (none, s, ms, ...).
 #include "common.hpp"
 #include <nix/util/dataAccess.hpp>
 #include <hdf5.h>
 #include <memory>
+#include <valarray>
+#include <boost/multi_array.hpp>
+#include <nix/hydra/multiArray.hpp>
+#include <nix/NDArray.hpp>
+
+// exported by the library, not declared in dataAccess.hpp: the generic-Dimension dispatchers
+namespace nix { namespace util {
+boost::optional<ndsize_t> positionToIndex(double position, const std::string &unit, const PositionMatch match, const Dimension &dimension);
+std::vector<boost::optional<std::pair<ndsize_t, ndsize_t>>> positionToIndex(const std::vector<double> &start_positions,
+                                                                           const std::vector<double> &end_positions,
+                                                                           const std::vector<std::string> &units,
+                                                                           const RangeMatch range_matching,
+                                                                           const Dimension &dimension);
+} }
 
 using namespace nixv;
 using nix::NDSize;
@@ -147,8 +177,153 @@ static bool untouched(const std::vector<int64_t> &b) {
     return true;
 }
 
+// ---- typed container routes through the view
+struct TCall { std::string cmd; NDSize cnt, off; };
+
+template<typename C> static void tcall(nix::DataSet &ds, const TCall &k, C &c) {
+    if (k.cmd == "tgetall") ds.getData(c);
+    else if (k.cmd == "tget3") ds.getData(c, k.cnt, k.off);
+    else if (k.cmd == "tgetat") ds.getData(c, k.off);
+    else if (k.cmd == "tsetall") ds.setData(c);
+    else ds.setData(c, k.off);
+}
+
+static std::string show_ptr(const std::string &ext, const int64_t *p, size_t n) {
+    std::string o = ext + " | [";
+    for (size_t i = 0; i < n; i++) { o += " "; o += std::to_string(static_cast<long long>(p[i])); }
+    return o + " ]";
+}
+
+template<size_t N> static std::string typed_ma(nix::DataSet &ds, const TCall &k, const std::vector<size_t> &ext, bool get, long long v0) {
+    boost::array<typename boost::multi_array<int64_t, N>::index, N> e;
+    for (size_t i = 0; i < N; i++) e[i] = static_cast<typename boost::multi_array<int64_t, N>::index>(ext[i]);
+    boost::multi_array<int64_t, N> m(e);
+    for (size_t i = 0; i < m.num_elements(); i++) m.data()[i] = get ? SENTINEL : static_cast<int64_t>(v0 + static_cast<long long>(i));
+    tcall(ds, k, m);
+    if (!get) return "done";
+    std::string es;
+    for (size_t i = 0; i < N; i++) { if (i) es += " "; es += std::to_string(m.shape()[i]); }
+    return show_ptr(es, m.data(), m.num_elements());
+}
+
+static std::string typed(const std::vector<std::string> &t) {
+    if (!view) throw std::logic_error("no view");
+    Sections s = sections(t, 1);
+    TCall k; k.cmd = t[0];
+    const std::string route = s.at(0).at(0);
+    std::vector<size_t> ext;
+    for (size_t i = 1; i < s[0].size(); i++) ext.push_back(static_cast<size_t>(dec_u64(s[0][i])));
+    bool get = k.cmd[1] == 'g';
+    long long v0 = 0;
+    if (k.cmd == "tget3") { k.cnt = ndsize(s.at(1)); k.off = ndsize(s.at(2)); }
+    else if (k.cmd == "tgetat") { k.off = ndsize(s.at(1)); }
+    else if (k.cmd == "tsetall") { v0 = dec_int(s.at(1).at(0)); }
+    else if (k.cmd == "tset") { k.off = ndsize(s.at(1)); v0 = dec_int(s.at(2).at(0)); }
+    nix::DataSet &ds = *view;
+    size_t n = 1;
+    for (size_t e : ext) n *= e;
+    auto fill = [&](int64_t *p, size_t cnt) { for (size_t i = 0; i < cnt; i++) p[i] = get ? SENTINEL : static_cast<int64_t>(v0 + static_cast<long long>(i)); };
+    if (route == "sc") {
+        std::unique_ptr<int64_t> px(new int64_t(0)); fill(px.get(), 1);
+        tcall(ds, k, *px);
+        return get ? show_ptr("", px.get(), 1) : std::string("done");
+    }
+    if (route == "c1") {
+        if (ext.size() != 1 || (ext[0] != 3 && ext[0] != 5)) throw std::logic_error("driver: c1 is int64_t[3] or int64_t[5]");
+        std::unique_ptr<int64_t[]> store(new int64_t[ext[0]]); fill(store.get(), ext[0]);
+        if (ext[0] == 3) { typedef int64_t A[3]; tcall(ds, k, *reinterpret_cast<A *>(store.get())); }
+        else { typedef int64_t A[5]; tcall(ds, k, *reinterpret_cast<A *>(store.get())); }
+        return get ? show_ptr(std::to_string(ext[0]), store.get(), ext[0]) : std::string("done");
+    }
+    if (route == "c2") {
+        if (ext.size() != 2 || ext[0] != 2 || ext[1] != 3) throw std::logic_error("driver: c2 is int64_t[2][3]");
+        std::unique_ptr<int64_t[]> store(new int64_t[6]); fill(store.get(), 6);
+        typedef int64_t A[2][3];
+        tcall(ds, k, *reinterpret_cast<A *>(store.get()));
+        return get ? show_ptr("2 3", store.get(), 6) : std::string("done");
+    }
+    if (route == "vec") {
+        if (ext.size() != 1) throw std::logic_error("driver: a vector has one extent");
+        std::vector<int64_t> v(ext[0]); fill(v.data(), v.size());
+        tcall(ds, k, v);
+        return get ? show_ptr(std::to_string(v.size()), v.data(), v.size()) : std::string("done");
+    }
+    if (route == "val") {
+        if (ext.size() != 1) throw std::logic_error("driver: a valarray has one extent");
+        std::valarray<int64_t> v(ext[0]); if (ext[0]) fill(&v[0], v.size());
+        tcall(ds, k, v);
+        return get ? show_ptr(std::to_string(v.size()), v.size() ? &v[0] : nullptr, v.size()) : std::string("done");
+    }
+    if (route == "ma") {
+        switch (ext.size()) {
+        case 1: return typed_ma<1>(ds, k, ext, get, v0);
+        case 2: return typed_ma<2>(ds, k, ext, get, v0);
+        case 3: return typed_ma<3>(ds, k, ext, get, v0);
+        default: throw std::logic_error("driver: multi_array of rank 1..3 only");
+        }
+    }
+    if (route == "nd") {
+        NDSize dims(ext.size());
+        for (size_t i = 0; i < ext.size(); i++) dims[i] = ext[i];
+        nix::NDArray a(DataType::Int64, dims);
+        fill(reinterpret_cast<int64_t *>(a.data()), n);
+        tcall(ds, k, a);
+        if (!get) return "done";
+        NDSize sh = a.shape();
+        return show_ptr(show_nd(sh), reinterpret_cast<const int64_t *>(a.data()), static_cast<size_t>(sh.nelms()));
+    }
+    throw std::logic_error("bad route " + route);
+}
+
+static nix::PositionMatch rule(const std::string &r) {
+    if (r == "L") return nix::PositionMatch::Less;
+    if (r == "LE") return nix::PositionMatch::LessOrEqual;
+    if (r == "GE") return nix::PositionMatch::GreaterOrEqual;
+    if (r == "G") return nix::PositionMatch::Greater;
+    if (r == "EQ") return nix::PositionMatch::Equal;
+    throw std::logic_error("bad rule " + r);
+}
+
 static std::string handle(const std::vector<std::string> &t) {
     const std::string &c = t[0];
+    if (c == "tgetall" || c == "tget3" || c == "tgetat" || c == "tsetall" || c == "tset") return typed(t);
+    if (c == "vsetextent") {
+        if (!view) throw std::logic_error("no view");
+        view->dataExtent(ndsize(std::vector<std::string>(t.begin() + 1, t.end())));
+        return "done";
+    }
+    if (c == "vtype") {
+        if (!view) throw std::logic_error("no view");
+        std::ostringstream os; os << view->dataType(); return os.str();
+    }
+    if (c == "slice3") {
+        Sections s = sections(t, 1);
+        nix::DataView dv = nix::util::dataSlice(arr, dbls(s.at(0)), dbls(s.at(1)));
+        NDSize ext = dv.dataExtent();
+        size_t n = capped_nelms(ext);
+        if (n > CAP) return show_nd(ext) + " | OVERSIZE";
+        std::vector<int64_t> buf(n + 1, SENTINEL);
+        dv.getData(DataType::Int64, buf.data(), ext, NDSize());
+        std::string o = show_nd(ext) + " |";
+        for (size_t i = 0; i < n; i++) o += " " + std::to_string(static_cast<long long>(buf[i]));
+        return o;
+    }
+    if (c == "posin") return nix::util::positionInData(arr, ndsize(std::vector<std::string>(t.begin() + 1, t.end()))) ? "1" : "0";
+    if (c == "dimunit") return nix::util::getDimensionUnit(arr.getDimension(static_cast<size_t>(dec_u64(t.at(1))) + 1));
+    if (c == "p2i") {
+        nix::Dimension d = arr.getDimension(static_cast<size_t>(dec_u64(t.at(1))) + 1);
+        boost::optional<nix::ndsize_t> r = nix::util::positionToIndex(dec_dbl(t.at(2)), t.at(3), rule(t.at(4)), d);
+        return r ? enc_u64(*r) : std::string("none");
+    }
+    if (c == "p2iv") {
+        Sections s = sections(t, 1);
+        nix::Dimension d = arr.getDimension(static_cast<size_t>(dec_u64(s.at(0).at(0))) + 1);
+        nix::RangeMatch m = s.at(0).at(1) == "incl" ? nix::RangeMatch::Inclusive : nix::RangeMatch::Exclusive;
+        auto r = nix::util::positionToIndex(dbls(s.at(1)), dbls(s.at(2)), s.at(3), m, d);
+        std::string o = std::to_string(r.size());
+        for (auto &x : r) o += x ? " [" + enc_u64(x->first) + " " + enc_u64(x->second) + "]" : std::string(" [none]");
+        return o;
+    }
     if (c == "arr") return do_arr(t);
     if (c == "slice") return do_slice(t);
     if (c == "indata") {
